@@ -283,9 +283,24 @@ func runC04(w *World, r *Report) {
 				r.OK("dispatch", pfi.Key, inst, w.Pos(pfi.Decl.Pos()), fmt.Sprintf("type %d (%s) → %s", code, n, got), true)
 			}
 		}
+		// the selection may live in a helper Parse calls (parseError): look there as well
+		parseBodies := []*ast.BlockStmt{pfi.Decl.Body}
+		ast.Inspect(pfi.Decl.Body, func(n ast.Node) bool {
+			if c, ok := n.(*ast.CallExpr); ok {
+				if hf := w.FuncOf(w.calleeOf(pfi.Pkg.TypesInfo, c)); hf != nil && hf != pfi && hf.Pkg == pfi.Pkg && hf.Decl.Body != nil && hf.Recv == nil {
+					parseBodies = append(parseBodies, hf.Decl.Body)
+				}
+			}
+			return true
+		})
+		inspectParse := func(f func(ast.Node) bool) {
+			for _, b := range parseBodies {
+				ast.Inspect(b, f)
+			}
+		}
 		// error vs experimenter error (nested switch on the error type)
 		nested := false
-		ast.Inspect(pfi.Decl.Body, func(n ast.Node) bool {
+		inspectParse(func(n ast.Node) bool {
 			cc, ok := n.(*ast.CaseClause)
 			if !ok {
 				return true
@@ -331,7 +346,7 @@ func runC04(w *World, r *Report) {
 				})
 				return f
 			}
-			ast.Inspect(pfi.Decl.Body, func(n ast.Node) bool {
+			inspectParse(func(n ast.Node) bool {
 				blk, ok := n.(*ast.CaseClause)
 				var list []ast.Stmt
 				if ok {
